@@ -248,6 +248,13 @@ class Gen:
     s.top = s.gen_comp(0, budget)
     return s
 
+  def weight(s, n=None):
+    """number of objects that exist right after construction"""
+    n = s.top if n is None else n
+    if n[0] in ('comp', 'ifc'): return 1 + sum(s.weight(c) for _, c in n[2])
+    if n[0] == 'list': return sum(s.weight(e) for e in n[1])
+    return 1
+
   def source(s):
     return 'from pymtl3 import *\nfrom pymtl3.dsl import *\n' + s.struct_src() + '\n' + '\n'.join(s.classes) + f'\nTop = {s.top[1]}\n'
 
@@ -497,15 +504,20 @@ class DGen:
 
 def run(ctx):
   setup_impl_path()
+  t_py = time.time()
   quick = ctx.tier == 'quick'
   rng = ctx.rng
   cases, meta = [], []
   one_design(ctx, DGen(random.Random(1), 'D0', DIRECTED[0][1], directed_tree()), cases, meta)
   N = 200 if quick else 2500
   for j in range(N):
-    g = Gen(random.Random(rng.randrange(1 << 30)), f'H{j}', rng.choice(['small', 'medium', 'medium', 'large']))
-    g.build(); g._sinks = sink_table(g)
+    while True:
+      g = Gen(random.Random(rng.randrange(1 << 30)), f'H{j}', rng.choice(['small', 'medium', 'medium', 'large']))
+      g.build()
+      if g.weight() <= (140 if quick else 220): break
+    g._sinks = sink_table(g)
     one_design(ctx, g, cases, meta)
+  ctx.extra['python_phase_s'] = round(time.time() - t_py, 1)
   bad = ctx.coq_bad_indices('names', 'Base.Prelude Elab.Names', 'From Coq Require Import String.', 'node * list obs', cases, 'design_ok c',
                             shard=10 if quick else 25)
   for i in bad[:5]:
